@@ -18,7 +18,7 @@ Monitors on the IMPLEMENTATION ALONE (a hit is a violation with the replayable p
       header hash) is identical in all configurations;
   M4  every single-field mutation of the header / payset is rejected;
   M5  after the block is added to A (validated delta) and to B (own evaluation) both ledgers hold the same state;
-  MP  (thorough tier) blocks taken from the REAL TransactionPool.AssembleBlock after Remember / re-evaluation are accepted by
+  MP  blocks taken from the REAL TransactionPool.AssembleBlock after Remember / re-evaluation are accepted by
       Ledger.Validate, twice, with identical deltas (harness/data/pools/zz_verif_c20pool_test.go);
   M6  header arithmetic: payset size, txn counter and fees collected equal what the accepted groups imply; the producer's
       payout equals min(pct·fees/100 + bonus, fee sink balance − min balance) and the finished block's payout is ≤ it.
@@ -311,9 +311,8 @@ def run(ctx, replay_ops=None):
     if notes.get("order-only"):
         ctx.notes.append("%d validated deltas equal the model's up to record order" % notes["order-only"])
 
-    # 3. producer side with the real TransactionPool (its link step alone costs about a minute: thorough tier, or whenever the
-    #    proof / tie is broken and a failing input is being searched for)
-    if replay_ops is None and (ctx.tier == "thorough" or not proved or ctx.tie_failures or os.environ.get("VERIF_C20_POOL")):
+    # 3. producer side with the real TransactionPool (5 cases in the quick tier, 200 in the thorough tier)
+    if replay_ops is None:
         run_pool(ctx)
 
 
